@@ -6,14 +6,14 @@
     Constrain/Find + UpsertInto(capture) was observed to do.
 
       corr     : observed = Params.read_query (the model of BuildConstraints + the constrained reader)
-      spec_obs : the parameters are read DECLARATIVELY ([interpret]: membership of each value in its
-                 grammar; a path expression is denoted by [PathExpr.denote] of its tree, the raw
-                 value having to be [print] of that tree) and then
+      spec_obs : the parameters are read DECLARATIVELY (Tree/Reading.v [interpret]: membership of
+                 each value in its grammar; a path expression is denoted by [PathExpr.denote] of
+                 its tree, the raw value having to be [print] of that tree) and then
                    invalid parameter  -> any error is what the property demands
                    valid parameters P -> observed = Project.spec_read P (projection of the full
                                          read, container bound), and the store is unchanged *)
 From Coq Require Import ZArith List Bool Strings.Byte Strings.String.
-From YV Require Import Base.Verdict Val.Model Tree.Schema Tree.Editor Tree.Merge Tree.PathExpr Tree.Params Tree.Project.
+From YV Require Import Base.Verdict Val.Model Tree.Schema Tree.Editor Tree.Merge Tree.PathExpr Tree.Params Tree.Project Tree.Reading.
 Import ListNotations.
 Open Scope Z_scope.
 
@@ -39,87 +39,6 @@ Definition res_eqb (m : pres content) (o : obs) : bool :=
   | _, _ => false
   end.
 
-(** * declarative reading of the parameters *)
-Inductive reading := Invalid | Valid (P : option params) | Unreadable.
-
-Definition ast_for (name : list byte) (asts : list (list byte * pexpr)) : option pexpr :=
-  match find (fun a => bytes_eqb (fst a) name) asts with Some (_, e) => Some e | None => None end.
-
-(** value of a path-expression parameter: Some None = invalid *)
-Definition read_expr (name v : list byte) (asts : list (list byte * pexpr)) : option (option paths) :=
-  match ast_for name asts with
-  | Some e => if bytes_eqb (print_top e) v then Some (Some (denote e)) else None   (* harness inconsistency *)
-  | None =>
-      if balanced v 0
-      then match parse_path_expr v with POk ps => Some (Some ps) | PErr _ => None end
-      else Some None
-  end.
-
-Definition interpret (q : query) (asts : list (list byte * pexpr)) : reading :=
-  match q with
-  | [] => Valid None
-  | _ =>
-      let depth := match lookup (B "depth") q with
-                   | None => Some (Some 64)
-                   | Some v => match atoi v with Some n => if 1 <=? n then Some (Some n) else Some None | None => Some None end
-                   end in
-      let maxn := match lookup (B "fc.max-node-count") q with
-                  | None => Some (Some 10000)
-                  | Some v => match atoi v with Some n => if 0 <=? n then Some (Some n) else Some None | None => Some None end
-                  end in
-      let cont := match lookup (B "content") q with
-                  | None => Some (Some None)
-                  | Some v => if bytes_eqb v (B "config") then Some (Some (Some CConfig))
-                              else if bytes_eqb v (B "nonconfig") then Some (Some (Some CNonconfig))
-                              else if bytes_eqb v (B "all") then Some (Some (Some CAll)) else Some None
-                  end in
-      let trim := match lookup (B "with-defaults") q with
-                  | None => Some (Some false)
-                  | Some v => if bytes_eqb v (B "trim") then Some (Some true)
-                              else if bytes_eqb v (B "report-all") then Some (Some false) else Some None
-                  end in
-      let fields := match lookup (B "fields") q with
-                    | None => Some (Some None)
-                    | Some v => match read_expr (B "fields") v asts with
-                                | Some (Some ps) => Some (Some (Some ps)) | Some None => Some None | None => None end
-                    end in
-      let xfields := match lookup (B "fc.xfields") q with
-                     | None => Some (Some None)
-                     | Some v => match read_expr (B "fc.xfields") v asts with
-                                 | Some (Some ps) => Some (Some (Some ps)) | Some None => Some None | None => None end
-                     end in
-      (* fc.range = selector ! start [ - [ end ] ] with unsigned decimal rows *)
-      let range := match lookup (B "fc.range") q with
-                   | None => Some (Some None)
-                   | Some v =>
-                       match cut_at x21 v [] with
-                       | None => Some None
-                       | Some (sel, rows) =>
-                           let rows_ok :=
-                             match cut_at x2d rows [] with
-                             | None => Some (atoi rows, Some (-1))
-                             | Some (st, en) => Some (atoi st, match en with [] => Some (-1) | _ => atoi en end)
-                             end in
-                           match rows_ok with
-                           | Some (Some st, Some en) =>
-                               match read_expr (B "fc.range") sel asts with
-                               | Some (Some ps) => Some (Some (Some (ps, st, en)))
-                               | Some None => Some None
-                               | None => None
-                               end
-                           | _ => Some None
-                           end
-                       end
-                   end in
-      match depth, range, fields, xfields, maxn, cont, trim with
-      | Some (Some d), Some (Some r), Some (Some f), Some (Some x), Some (Some n), Some (Some c), Some (Some t) =>
-          Valid (Some (mkParams d r f x n c t))
-      | None, _, _, _, _, _, _ | _, None, _, _, _, _, _ | _, _, None, _, _, _, _ | _, _, _, None, _, _, _
-      | _, _, _, _, None, _, _ | _, _, _, _, _, None, _ | _, _, _, _, _, _, None => Unreadable
-      | _, _, _, _, _, _, _ => Invalid
-      end
-  end.
-
 Definition is_error (o : obs) : bool := match o with ObsErr _ => true | _ => false end.
 
 Definition classify (c : case) : verdict :=
@@ -137,9 +56,9 @@ Definition classify (c : case) : verdict :=
       let spec :=
         if dom then
           match interpret q asts with
-          | Invalid => is_error o
-          | Valid P => res_eqb (spec_read P kids data) o && unchanged
-          | Unreadable => false
+          | TBad => is_error o
+          | TOk P => res_eqb (spec_read P kids data) o && unchanged
+          | TUnk => false
           end
         else true in
       classify_gen corr spec None
